@@ -80,7 +80,8 @@ theorem model_main (i : Input) (hv : i.fromValid = true) (h0 : i.amount ≠ 0)
 theorem model_drive (i : Input) (h0 : i.amount ≠ 0) (hfit : i.fromHeight + i.amount ≤ U64_MAX) :
     drive 32 true i.net i.fuel 0 (init cfg (i.fromHeight + 1, i.fromHeight + i.amount)) ≠ .panic ∧
     ∀ s' steps, drive 32 true i.net i.fuel 0 (init cfg (i.fromHeight + 1, i.fromHeight + i.amount)) = .done s' steps →
-      Inv ht 64 (i.fromHeight + 1, i.fromHeight + i.amount) s' ∧ Full 8 s' ∧ s'.tasks = [] := by
+      s'.status = .failed ∨
+        (Inv ht 64 (i.fromHeight + 1, i.fromHeight + i.amount) s' ∧ Full 8 s' ∧ s'.tasks = []) := by
   have hr : 1 ≤ i.fromHeight + 1 ∧ i.fromHeight + 1 ≤ i.fromHeight + i.amount ∧
       i.fromHeight + i.amount ≤ Lumina.Model.Session.U64_MAX := ⟨by omega, by omega, hfit⟩
   have hi := Lumina.Proofs.Session.inv_init ht cfg (i.fromHeight + 1, i.fromHeight + i.amount)
@@ -100,9 +101,11 @@ theorem never_panics (i : Input) (hh : i.fromHeight < U64_MAX) : model i ≠ .pa
         | panic => exact absurd hd hnp
         | hang => simp
         | done s steps =>
-          have := (hdone s steps hd).1.running
-          simp only [this]
-          split <;> simp
+          rcases hdone s steps hd with hf | hinv
+          · simp [hf]
+          · have := hinv.1.running
+            simp only [this]
+            split <;> simp
       · -- `height.checked_add(amount - 1)` fails: InvalidRequest
         have h1 : ¬ U64_MAX < i.fromHeight + 1 := by omega
         have h2 : U64_MAX < i.fromHeight + 1 + (i.amount - 1) := by omega
@@ -126,7 +129,8 @@ theorem ok_exact (i : Input) (hh : i.fromHeight < U64_MAX) (hs : List Hdr) (step
         | panic => simp [hd] at h
         | hang => simp [hd] at h
         | done s steps' =>
-          obtain ⟨hinv, hfull, htasks⟩ := hdone s steps' hd
+          rcases hdone s steps' hd with hfail | ⟨hinv, hfull, htasks⟩
+          · simp [hd, hfail] at h
           simp only [hd, hinv.running] at h
           split at h
           · rename_i hver
@@ -314,9 +318,21 @@ theorem range_spec (i : Input) (hh : i.fromHeight < U64_MAX) (hchain : i.net.cha
 
 /-! ### the code BEFORE the `fix:` commit violated the property twice -/
 
+theorem ofClient_cyc (l : List Beh) (h : l.all Beh.ofClient = true) :
+    ∀ j, (cyc l j .full).ofClient = true := by
+  intro j
+  unfold cyc
+  split
+  · rfl
+  · rename_i hl
+    have hlt : j % l.length < l.length := Nat.mod_lt _ (by omega)
+    have hmem := getD_mem l (j % l.length) .full hlt
+    exact List.all_eq_true.mp h _ hmem
+
 /-- amount 0: the session asks for 0 headers at `from+1`, the client refuses the request
-    (`InvalidRequest`), the session retries — for ever: not finished after ANY number of steps -/
-theorem pre_fix_zero_amount_hangs (net : Net) (fuel : Nat) :
+    (`InvalidRequest`), the session retries — for ever: not finished after ANY number of steps,
+    whatever the peers send (every answer goes through the header-ex client) -/
+theorem pre_fix_zero_amount_hangs (net : Net) (hnet : net.beh.all Beh.ofClient = true) (fuel : Nat) :
     getVerifiedHeadersRangeG false true cfg 32
       { fromValid := true, fromHeight := 5, sameChain := true, amount := 0, net, fuel } = .hang := by
   have hs0 : (init cfg (6, 5) : State Hdr)
@@ -330,8 +346,11 @@ theorem pre_fix_zero_amount_hangs (net : Net) (fuel : Nat) :
     | zero => intro j; simp [drive]
     | succ n ih =>
       intro j
-      have hans : ∀ b, clientAnswer 32 true net b 6 0 = .err .invalidRequest := by
-        intro b; simp [clientAnswer, Lumina.Model.HeaderExClient.isValid]
+      have hans : answer 32 true net (cyc net.beh j .full) 6 0 = some (.err .invalidRequest) := by
+        have hb := ofClient_cyc _ hnet j
+        cases hc : cyc net.beh j .full <;>
+          simp [hc, Beh.ofClient] at hb <;>
+          simp [answer, clientAnswer, Lumina.Model.HeaderExClient.isValid]
       have hstep : Lumina.Model.Session.step
           ({ toFetch := none, batchSize := 8, tasks := [(6, 0)], responses := [], status := .running } : State Hdr)
           (.err 6 0)
@@ -361,6 +380,7 @@ def demoNet : Net := { chainLen := 100, order := [3, 0, 5], beh := [.full] }
 def demoIn : Input :=
   { fromValid := true, fromHeight := 5, sameChain := true, amount := 20, net := demoNet, fuel := 20 }
 
+example : demoNet.beh.all Beh.ofClient = true := by decide
 example : served (specIn demoIn) = true := by decide
 example : demoIn.fromHeight < U64_MAX ∧ demoIn.net.chainLen ≤ U64_MAX := by decide
 example : model demoIn = .ok ((List.range' 6 20).map chainHdr) 3 := by decide
@@ -374,5 +394,15 @@ example : ∃ steps, steps ≤ 20 ∧
 /-- peers that only ever say NOT_FOUND: the (fixed) call keeps waiting — a `hang` outcome that the
     property does not exclude (the network does not serve) -/
 example : model { demoIn with net := { demoNet with beh := [.notFound] } } = .hang := by decide
+
+/-- (S9) an empty but successful answer (`Ok(vec![])`) stores nothing and reschedules the same
+    request; mixed with answers that deliver, the call still returns exactly the 20 headers -/
+example : model { demoIn with net := { demoNet with beh := [.emptyOk, .full] }, fuel := 40 }
+    = .ok ((List.range' 6 20).map chainHdr) 6 := by decide
+/-- (S9) only `Ok(vec![])`: never finishes (the network does not serve) -/
+example : model { demoIn with net := { demoNet with beh := [.emptyOk] } } = .hang := by decide
+/-- (S9) the responder of the third answered request is dropped: the non-HeaderEx error is
+    returned at once, after 3 answered requests -/
+example : model { demoIn with net := { demoNet with beh := [.full, .full, .dropped] } } = .err "Fatal" 3 := by decide
 
 end Lumina.Props.C27
